@@ -41,8 +41,11 @@ impl TrySend for ZmqFramedWrite {
         match self.as_mut().poll_ready(&mut cx) {
             Poll::Ready(Ok(())) => {
                 self.as_mut().start_send(item)?;
-                let _ = self.as_mut().poll_flush(&mut cx); // ignore result just hope that it flush eventually
-                Ok(())
+                // A flush that cannot finish now is fine (it continues with the next send), a failed one is not
+                match self.as_mut().poll_flush(&mut cx) {
+                    Poll::Ready(Err(e)) => Err(e.into()),
+                    _ => Ok(()),
+                }
             }
             Poll::Ready(Err(e)) => Err(e.into()),
             Poll::Pending => Err(ZmqError::BufferFull("Sink is full")),
